@@ -138,6 +138,10 @@ def report(chk, traces, res, note):
     for (kind, key, tr), errs in zip(traces, res):
         for clause, idx in errs:
             ev = tr['events'][idx - 1] if idx <= len(tr['events']) else {}
+            # a launch failure of one bucket reported as FAILED for healthy pilots of other
+            # buckets is a pilot ending 'for the wrong reason': it also serves C14
+            if chk.pid == 'C14' and clause == 'C17.LaunchFailureLocal':
+                clause = 'C14.LaunchFailureLocal'
             if clause.split('.')[0] != chk.pid:
                 other[clause] = other.get(clause, 0) + 1
                 continue
